@@ -13,7 +13,7 @@ PLAN = {
         "text": "Sequential contracts discharged by CBMC over a symbolic operation (all six Recorder methods), symbolic argument choice and symbolic update value: handle alive => exactly one call enters the wrapped recorder with identical arguments (pointer-identical name/description/key/metadata, equal unit), the handle it returns is the one given to the caller, the emission holds a second strong reference while inside (strong == 2) and has released it at return; into_inner returns the original recorder un-finalised, it is finalised exactly once when the caller drops it; after into_inner or after dropping the handle no call enters the recorder, register_* yield inert handles, and the recorder is never finalised twice; install on a fresh process makes the global recorder forward to it; install with an existing global recorder (real set_global_recorder executed) returns the original recorder intact inside SetRecorderError and leaves the first global in place. The schedule clauses ('only when no emission is executing', 'no call enters after finalisation began') follow from these contracts plus Arc's contract, which is assumed, and the rely/guarantee harness showing the into_inner loop exits exactly at the first successful try_unwrap.",
         "note": "Interleavings are not executed: they rest on std Arc/Weak (upgrade fails once strong == 0; try_unwrap succeeds only for the sole strong owner, atomically) -- ASSUMED, sanity-checked sequentially on the real Arc. into_inner retry loop checked for <= 3 failed attempts (bounded; iterations are identical). SC atomics; panic unwinding inside the wrapped recorder not modelled.",
     },
-    "min_obligations": {"quick": 6, "thorough": 6},
+    "min_obligations": {"quick": 7, "thorough": 7},
     "assumptions": [
         "std Arc/Weak contract (ASSUMED, not re-verified): Weak::upgrade returns None once the strong count has reached 0 and otherwise yields a strong reference that keeps the value alive; Arc::try_unwrap returns Ok only when called by the sole strong owner and does so atomically w.r.t. concurrent upgrade; Drop of the last strong reference drops the value exactly once",
         "every interleaving clause of the statement (emitting threads racing into_inner / handle drop) is derived from the sequential contracts plus the Arc contract above; no concurrent schedule is executed (Kani has no threads)",
@@ -35,6 +35,7 @@ PLAN = {
         ],
         "harnesses": [
             H("c20_weak_live", "handle alive: each of the 6 methods => exactly one call enters the wrapped recorder, same op, identical arguments, returned handle is the inner one; strong == 2 during the call and == 1 (weak == 1) at return", covers=2),
+            H("c20_weak_live_busy", "as c20_weak_live with 1 or 2 other emissions in flight (parked upgraded references): the emission still enters exactly once, strong == 2 + k during the call, back to 1 afterwards", covers=1),
             H("c20_after_into_inner", "into_inner returns the original recorder, drop counter 0 at return, 1 after the caller drops it; afterwards all 6 methods are inert (no call enters, inert handles), never finalised twice", covers=2),
             H("c20_after_handle_drop", "dropping the handle finalises the recorder exactly once; later calls through the wrapper are inert; no call enters after finalisation began", covers=2),
             H("c20_install_ok", "install without a global: Ok; emissions through the global recorder reach the wrapped recorder once with identical arguments; inert after into_inner", covers=2),
